@@ -26,9 +26,8 @@ char vg_sp_c;
 #define VSTR_SZ sizeof(struct spif_str_t_struct)
 #define STRV(p) ((p)->s != NULL && 0 <= (p)->len && (p)->len < (p)->size)
 /* ghost: number of tokens appended to the (abstract) token list; offset at which the current token began;
- * quote state at the top of the current outer iteration; whether the character at the loop head is a delimiter */
+ * quote state at the top of the current outer iteration */
 size_t vg_sp_cnt;
 char vg_sp_q;
-int vg_sp_d;
 
 #endif
